@@ -38,8 +38,12 @@ func newTimedQueue(ttl time.Duration, onPop func(peer.ID)) *timedQueue {
 
 // releaseExpired will release all expired items
 func (q *timedQueue) releaseExpired() {
+	verifEv(q, "releaseExpired.enter", "")
+	defer verifEv(q, "releaseExpired.exit", "")
 	q.Lock()
+	verifEv(q, "releaseExpired.locked", "")
 	expired := q.releaseUnsafe()
+	verifEv(q, "releaseExpired.unlock", "")
 	q.Unlock()
 
 	// onPop is called only after the queue lock is released: the callback takes locks of its own
@@ -78,8 +82,11 @@ func (q *timedQueue) releaseUnsafe() []peer.ID {
 }
 
 func (q *timedQueue) push(peerID peer.ID) {
+	verifEv(q, "push.enter", peerID)
 	q.Lock()
 	defer q.Unlock()
+	verifEv(q, "push.locked", peerID)
+	defer verifEv(q, "push.unlock", peerID)
 
 	q.items = append(q.items, item{
 		ID:        peerID,
